@@ -118,3 +118,20 @@ Lemma quot_div_nonneg : forall a b, 0 <= a -> 0 < b -> Z.quot a b = a / b.
 Proof. intros. apply Z.quot_div_nonneg; assumption. Qed.
 Lemma rem_mod_nonneg : forall a b, 0 <= a -> 0 < b -> Z.rem a b = a mod b.
 Proof. intros. apply Z.rem_mod_nonneg; assumption. Qed.
+
+(* three fields: hi above bit n, mid between bits m and n, lo below bit m *)
+Lemma lor_hi_lo_mid : forall hi lo mid n m, 0 <= m <= n ->
+  0 <= lo < 2 ^ m -> 0 <= mid * 2 ^ m < 2 ^ n ->
+  Z.lor (hi * 2 ^ n + lo) (mid * 2 ^ m) = hi * 2 ^ n + mid * 2 ^ m + lo.
+Proof.
+  intros hi lo mid n m Hmn Hlo Hmid.
+  assert (Hm : 2 ^ m <= 2 ^ n) by (apply Z.pow_le_mono_r; lia).
+  assert (Hmid0 : 0 <= mid) by nia.
+  assert (Hsum : mid * 2 ^ m + lo < 2 ^ n).
+  { replace n with ((n - m) + m) in * by lia. rewrite Z.pow_add_r in * by lia.
+    assert (mid < 2 ^ (n - m)) by nia. nia. }
+  rewrite <- (lor_shift_add hi lo n) by lia.
+  rewrite <- Z.lor_assoc.
+  rewrite (Z.lor_comm lo), (lor_shift_add mid lo m) by lia.
+  rewrite lor_shift_add by lia. lia.
+Qed.
